@@ -379,6 +379,14 @@ def call_numpy(it, tail, args, kwargs, env, node, chain):
     if tail == "concatenate":
         seq = a[0]
         axis = a[1] if len(a) > 1 else kw(kwargs, "axis", num(0))
+        # np.concatenate((x[k:], x[:k])) is x rotated: np.roll(x, -k)  (k = -1: the last element moves to the front)
+        sq = to_term(seq)
+        if isinstance(sq, sp.Tuple) and len(sq.args) == 2 and all(fname(x_) == "item" and fname(x_.args[1]) == "slc" for x_ in sq.args) \
+                and sq.args[0].args[0] == sq.args[1].args[0] and to_term(axis) == 0:
+            s0, s1 = sq.args[0].args[1], sq.args[1].args[1]
+            if s0.args[1] == NONE_T and s0.args[2] == NONE_T and s1.args[0] == NONE_T and s1.args[2] == NONE_T \
+                    and s0.args[0] == s1.args[1] and getattr(s0.args[0], "is_Integer", False):
+                return op("roll", sq.args[0].args[0], -s0.args[0])
         return op("concatenate", to_term(seq), to_term(axis))
     if tail == "roll":
         return op("roll", t[0], t[1])
